@@ -151,6 +151,38 @@ fn check_batch(acc: &mut Acc, c: &Cfg, l: &Luts, base: u64, ys: &[u16], us: &[u1
     });
 }
 
+
+/// Adjacent pixel pairs that differ by +1 on one plane and by -2^k on the next one (and the
+/// mirrored pairs): two pixels that a key packing the three codes into fields narrower than the
+/// bit depth cannot tell apart. Laid out so that the two members of a pair are neighbours in scan
+/// order; bases come from a 9-point lattice per plane.
+pub fn carry_pairs(n: u32) -> Vec<[u16; 3]> {
+    let max = (1i64 << n) - 1;
+    let base: Vec<i64> = lattice_codes(n, 9).into_iter().map(i64::from).collect();
+    let mut out = vec![];
+    let mut push_pair = |a: [i64; 3], b: [i64; 3]| {
+        if a.iter().chain(b.iter()).all(|c| (0..=max).contains(c)) {
+            out.push([a[0] as u16, a[1] as u16, a[2] as u16]);
+            out.push([b[0] as u16, b[1] as u16, b[2] as u16]);
+        }
+    };
+    for k in 6..n {
+        let s = 1i64 << k;
+        for &y in &base {
+            for &u in &base {
+                for &v in [base[0], base[base.len() / 2], base[base.len() - 1]].iter() {
+                    for sign in [1i64, -1] {
+                        push_pair([y, u, v], [y, u + sign, v - sign * s]);
+                        push_pair([y, u, v], [y + sign, u - sign * s, v]);
+                        push_pair([y, u, v], [y + sign, u, v - sign * s]);
+                    }
+                }
+            }
+        }
+    }
+    out
+}
+
 fn run_items(acc: &mut Acc, c: &Cfg, l: &Luts, it: &[[u16; 3]]) {
     let (ys, us, vs): (Vec<u16>, Vec<u16>, Vec<u16>) = (it.iter().map(|t| t[0]).collect(), it.iter().map(|t| t[1]).collect(), it.iter().map(|t| t[2]).collect());
     check_batch(acc, c, l, 0, &ys, &us, &vs);
@@ -181,12 +213,53 @@ pub fn run(tier: Tier) -> Report {
                 check_batch(acc, c, &l, base + lo, &ys, &us, &vs);
                 let items: Vec<[u16; 3]> = (0..ys.len()).map(|i| [ys[i], us[i], vs[i]]).collect();
                 refine_violations(acc, base + lo, &items, 1, &|a, it| run_items(a, c, &l, it), &|it| json!(it));
+                // the same pixels with other neighbours: reversed scan order (not for the complete cubes)
+                if !matches!(d, Triples::Full(_)) {
+                    let rev: Vec<[u16; 3]> = items.iter().rev().copied().collect();
+                    run_items(acc, c, &l, &rev);
+                    refine_violations(acc, 0, &rev, 1, &|a, it| run_items(a, c, &l, it), &|it| json!(it));
+                }
                 if lo == 0 && c.m == MC::BT709 && c.n == 8 && !c.wide {
                     acc.sample(json!({"cfg": c.json(), "first_triple": [ys[0],us[0],vs[0]], "last_triple_of_chunk": [ys[len-1],us[len-1],vs[len-1]]}));
                 }
             });
             rep.acc.merge(acc);
             base += total;
+        }
+        // two large images per config (cycling the lattice product)
+        if !light() {
+            let prod = Triples::Product(lattice_codes(c.n as u32, 17));
+            for &big in BIG_SIZES.iter() {
+                let items: Vec<[u16; 3]> = (0..big as u64).map(|i| prod.get((i * 7919) % prod.len())).collect();
+                let mut acc = Acc::default();
+                run_items(&mut acc, c, &l, &items);
+                refine_violations(&mut acc, 0, &items, 1, &|a, it| run_items(a, c, &l, it), &|it| json!(it));
+                acc.bucket("large images (65,539 and 262,147 pixels) decoded", 1);
+                rep.acc.merge(acc);
+            }
+        }
+        // carry-collision pairs as scan-order neighbours
+        if c.n >= 9 || light() {
+            let pairs = carry_pairs(c.n as u32);
+            let acc = par_chunks(pairs.len() as u64 / 2, 1 << 13, |acc, lo, hi| {
+                let it = &pairs[(2 * lo) as usize..(2 * hi) as usize];
+                let before = acc.viols.len();
+                run_items(acc, c, &l, it);
+                if acc.viols.len() > before {
+                    // keep the pair together: the replay case is the two-pixel image
+                    let keys: Vec<String> = acc.viols.iter().filter(|(_, v)| v.case.get("shape").is_none()).map(|(k, _)| k.clone()).collect();
+                    for k in keys {
+                        let i = (acc.viols[&k].index as usize) & !1;
+                        let pair = [it[i.min(it.len() - 2)], it[(i + 1).min(it.len() - 1)]];
+                        let v = acc.viols.get_mut(&k).unwrap();
+                        v.case["shape"] = json!([2, 1]);
+                        v.case["batch"] = json!(pair);
+                        v.detail = format!("{} [as the neighbour of {:?} in a 2x1 image]", v.detail, if v.index % 2 == 1 { pair[0] } else { pair[1] });
+                    }
+                }
+                acc.bucket("carry-collision neighbour pairs decoded", (hi - lo) as u64);
+            });
+            rep.acc.merge(acc);
         }
     }
     // labels are passed through
